@@ -105,3 +105,23 @@ impl State {
             r.is_err() ==> *final(self) == *old(self),
     { unimplemented!() }
 }
+
+// ---- state.rs pop_sector_deal_ids: reads and deletes the deal lists of the given sectors of one provider ------------------
+// Returns the concatenation of the deleted lists (in the order the sectors are given); assigns only `provider_sectors`,
+// and only after everything else succeeded (Err leaves the state as it was). The iterator argument is the materialised
+// listing of prelude BitField::iter.
+pub uninterp spec fn popped_deal_ids(root: Cid, provider: ActorID, sectors: Seq<u64>) -> Seq<DealID>;
+impl State {
+    #[verifier::external_body]
+    pub fn pop_sector_deal_ids<BS: Blockstore>(&mut self, store: &BS, provider: ActorID, sector_numbers: Vec<u64>) -> (r: Result<Vec<DealID>, ActorError>)
+        ensures
+            r.is_ok() ==> *final(self) == (State { provider_sectors: final(self).provider_sectors, ..*old(self) }),
+            r.is_ok() ==> r->Ok_0@ == popped_deal_ids(old(self).provider_sectors, provider, sector_numbers@),
+            // every listed deal of those sectors is returned, and nothing else
+            r.is_ok() ==> forall|d: DealID| #[trigger] r->Ok_0@.contains(d) <==> exists|s: SectorNumber| sector_numbers@.contains(s) && #[trigger] sector_deals_of(old(self).provider_sectors, provider, s).contains(d),
+            // exactly those lists are gone from the index
+            r.is_ok() ==> forall|p: ActorID, s: SectorNumber, d: DealID| #[trigger] sector_deals_of(final(self).provider_sectors, p, s).contains(d)
+                <==> sector_deals_of(old(self).provider_sectors, p, s).contains(d) && !(p == provider && sector_numbers@.contains(s)),
+            r.is_err() ==> *final(self) == *old(self),
+    { unimplemented!() }
+}
